@@ -179,6 +179,70 @@ func runC04(c *eng.Ctx) {
 	// ---- 5b. one rollup job per source family at a time ---------------------------------------------------------------------------------
 	c.Rule("ATOMIC", famT+".rollup{single flight}", func() { singleFlight(c, famT+".rolluping", famT+".rollup") })
 
+	// ---- 5b2. the job works on the marks as they are AFTER its claim --------------------------------------------------------------------
+	// (a trigger that read the marks before it won the claim may have read them while the previous job was still running: that job
+	// then finishes, clears its references, releases the flag, and the stale list makes the new job merge the same files again)
+	c.Rule("ORDER", famT+".rollup{the marks are read by the claimer}", func() {
+		f := c.Fn(famT + ".rollup")
+		read := invokeOn("", "GetLiveRollupFiles")
+		var cas ssa.Value
+		for _, b := range f.Blocks {
+			for _, in := range b.Instrs {
+				if fa, m, _ := eng.AtomicOp(in); fa != nil && eng.FieldKeyOfAddr(fa) == famT+".rolluping" && (m == "CompareAndSwap" || m == "CAS") {
+					cas = in.(ssa.Value)
+				}
+			}
+		}
+		if cas == nil {
+			c.Undecided("unresolved anchor: no rolluping.CompareAndSwap in %s", famT+".rollup")
+		}
+		te, _ := eng.BoolCheckEdges(f, cas)
+		claimed := func(in ssa.Instruction) bool {
+			for _, e := range te {
+				if eng.DominatedByEdge(f, in, e) {
+					return true
+				}
+			}
+			return false
+		}
+		inJob := 0
+		for _, g := range append([]*ssa.Function{f}, append(eng.Closures(f)[1:], localFuncs(f)...)...) {
+			for i, s := range p.SitesDirect(g, read) {
+				if g != f {
+					inJob++
+					continue
+				}
+				if claimed(s.Instr) {
+					inJob++
+					continue
+				}
+				// a look before the claim may only decide whether to try at all: its result does not travel into the job
+				escapes := ""
+				for _, b := range f.Blocks {
+					for _, in := range b.Instrs {
+						if mc, ok := in.(*ssa.MakeClosure); ok {
+							for _, bd := range mc.Bindings {
+								if eng.DependsOn(bd, func(x ssa.Value) bool { return x == s.Instr.(ssa.Value) }) {
+									escapes = "captured by the job started at " + p.InstrPos(in)
+								}
+							}
+						}
+						if g, ok := in.(*ssa.Go); ok {
+							for _, a := range g.Common().Args {
+								if eng.DependsOn(a, func(x ssa.Value) bool { return x == s.Instr.(ssa.Value) }) {
+									escapes = "handed to the job started at " + p.InstrPos(in)
+								}
+							}
+						}
+					}
+				}
+				c.Check(escapes == "", fmt.Sprintf("pre-claim-look-stays-outside-the-job[%d]", i), s.Instr, f,
+					"the rollup marks read before the single-flight claim are not what the job works on", escapes)
+			}
+		}
+		c.Check(inJob >= 1, "marks-read-after-the-claim", nil, f, "the job reads the source family's rollup marks after it has claimed the flag", "no GetLiveRollupFiles() on the claimed side")
+	})
+
 	// ---- 5c. the reference key written by the target is the key it is looked up / deleted by --------------------------------------
 	c.Rule("SYMMETRY", famT+"{reference key = (source store, source family id, file)}", func() { referenceKeySymmetry(c) })
 
